@@ -51,13 +51,42 @@ Fwd(c, um, i) ==
     [] c.op \in {"UploadPart", "UploadPartCopy", "AbortUpload"} -> [c EXCEPT !.u = USec(um, c.u, i)]
     [] OTHER -> c
 
-\* One client call through the replication storage.
+\* ------------------------------------------------ bulk delete (storage.Storage.DeleteObjects)
+\* Not part of the PithosMC call alphabet; modelled here from metadatapart/delete.go:DeleteObjects: one
+\* transaction, the entries one after the other, each exactly like DeleteObject(key, no version id, If-Match) -
+\* except that a failed precondition is a PER-ENTRY result (Deleted = false, PreconditionFailed): the entry changes
+\* nothing, the remaining entries are still processed and the call as a whole succeeds.
+\* call: [op |-> "DeleteObjects", b, entries : Seq([k, cond])], cond in {"none", "ifm-cur", "ifm-stale"}
+RECURSIVE BulkFold(_, _, _, _)
+BulkFold(St, b, es, acc) ==
+  IF es = <<>> THEN [s |-> St, ents |-> acc]
+  ELSE LET e == Head(es)
+           a == DeleteObject(St, b, e.k, -1, e.cond) IN
+       IF a.r.err = "PreconditionFailed"
+       THEN BulkFold(St, b, Tail(es), Append(acc, [k |-> e.k, deleted |-> FALSE, code |-> "PreconditionFailed"]))
+       ELSE BulkFold(a.s, b, Tail(es), Append(acc, [k |-> e.k, deleted |-> TRUE, code |-> ""]))
+BulkDelete(St, c) ==
+  IF ~Exists(St, c.b) THEN [s |-> St, r |-> [NoRes EXCEPT !.err = "NoSuchBucket"], ents |-> <<>>]
+  ELSE LET f == BulkFold(St, c.b, c.entries, <<>>) IN [s |-> f.s, r |-> NoRes, ents |-> f.ents]
+\* Apply extended by the bulk delete: [s, r, ents]
+XApply(St, c) ==
+  IF c.op = "DeleteObjects" THEN BulkDelete(St, c)
+  ELSE [s |-> Apply(St, c).s, r |-> Apply(St, c).r, ents |-> <<>>]
+\* the bulk calls over the model's keys: every non-empty sequence of distinct keys, each with a condition
+BConds == {"none", "ifm-cur", "ifm-stale"}
+BulkEntries ==
+  LET n == Cardinality(Keys)
+      raw == UNION {[1..m -> [k : Keys, cond : BConds]] : m \in 1..n}
+  IN {q \in raw : \A i, j \in 1..Len(q) : q[i].k = q[j].k => i = j}
+BulkCalls == [op : {"DeleteObjects"} \cap Ops, b : Buckets, entries : BulkEntries]
+
+\* One client call through the replication storage (DeleteObjects is forwarded with its entries unchanged).
 \*   P, Secs : states before; result: states after, new upload-id map, client result
 RepApply(P, Secs, um, c) ==
-  LET a == Apply(P, c) IN
+  LET a == XApply(P, c) IN
   IF a.r.err # "" \/ ReadOnly(c)
-  THEN [p |-> a.s, secs |-> Secs, um |-> um, r |-> a.r, serr |-> [i \in 1..Len(Secs) |-> ""]]
-  ELSE LET sa == [i \in 1..Len(Secs) |-> Apply(Secs[i], Fwd(c, um, i))]
+  THEN [p |-> a.s, secs |-> Secs, um |-> um, r |-> a.r, ents |-> a.ents, serr |-> [i \in 1..Len(Secs) |-> ""]]
+  ELSE LET sa == [i \in 1..Len(Secs) |-> XApply(Secs[i], Fwd(c, um, i))]
            um2 == IF c.op = "CreateUpload"
                   THEN [u \in DOMAIN um \cup {a.r.uid} |->
                           IF u = a.r.uid THEN [i \in 1..Len(Secs) |-> sa[i].r.uid] ELSE um[u]]
@@ -67,7 +96,7 @@ RepApply(P, Secs, um, c) ==
            firstErr == IF \E i \in 1..Len(Secs) : sa[i].r.err # ""
                        THEN sa[CHOOSE i \in 1..Len(Secs) : sa[i].r.err # "" /\ \A j \in 1..(i-1) : sa[j].r.err = ""].r.err
                        ELSE ""
-       IN [p |-> a.s, secs |-> [i \in 1..Len(Secs) |-> sa[i].s], um |-> um2,
+       IN [p |-> a.s, secs |-> [i \in 1..Len(Secs) |-> sa[i].s], um |-> um2, ents |-> a.ents,
            r |-> IF firstErr = "" THEN a.r ELSE [NoRes EXCEPT !.err = firstErr],
            serr |-> [i \in 1..Len(Secs) |-> sa[i].r.err]]
 
@@ -98,7 +127,7 @@ RStep(c) == LET r == RepApply(S, Sec, umap, c) IN
             /\ S' = r.p /\ Sec' = r.secs /\ umap' = r.um /\ res' = r.r /\ serr' = r.serr
             /\ hist' = <<c>>
 
-RNextMC == S.clock < MaxClock /\ \E c \in {x \in Calls(S) : NoVid(x)} : RStep(c)
+RNextMC == S.clock < MaxClock /\ \E c \in {x \in Calls(S) : NoVid(x)} \cup BulkCalls : RStep(c)
 
 RSpec == RInit /\ [][RNextMC]_rvars
 
